@@ -11,7 +11,7 @@ import time
 
 from . import env
 from .oracle import Violation
-from .run import Report, pmap, HarnessError
+from .run import Report, pmap, pimap, HarnessError
 from . import state as S
 
 _machine = None
@@ -87,6 +87,9 @@ def _chunks(lst, k):
     return [lst[i:i + k] for i in range(0, len(lst), k)]
 
 
+MAX_LAYER = int(__import__('os').environ.get('VERIF_MAX_LAYER', '1500000'))
+
+
 def bfs(mach, depth, rep=None, validate='deepest', deadline=None, max_states=None):
     """Explore to `depth`. Returns dict(states, transitions, layers, validated, completed_depth)."""
     rep = rep if rep is not None else Report()
@@ -124,17 +127,37 @@ def bfs(mach, depth, rep=None, validate='deepest', deadline=None, max_states=Non
             rep.caps.append(f'{mach.name}: state cap before layer {dep}')
             break
         items = [(b, s, t) for (_, b, s, t) in frontier]
-        nchunks = max(1, min(len(items), env.NPROC * 8))
+        nchunks = max(1, min(len(items), env.NPROC * 8, max(1, len(items) // 4)))
+        if len(items) > 200000:
+            nchunks = len(items) // 2000
         size = (len(items) + nchunks - 1) // nchunks
         nxt = []
-        # close the module-level pool fork issue: machine must be set before pool creation
-        for out, r in pmap(_expand, _chunks(items, size)):
+        overflow = False
+        for out, r in pimap(_expand, _chunks(items, size)):
             rep.merge(r)
+            if overflow:
+                continue
             for d, blob, seed, trace in out:
                 if d in seen:
                     continue
                 seen.add(d)
                 nxt.append((d, blob, seed, trace))
+            if len(nxt) > MAX_LAYER:
+                overflow = True
+        if overflow:
+            # memory guard: this layer is too large to keep; it was fully EXPANDED FROM
+            # (every state of layer dep-1 was expanded and checked) but its states are not
+            # all kept, so the search stops here
+            rep.caps.append('%s: layer %d exceeds %d states (memory guard); every state of '
+                            'layers 0..%d was expanded and every transition out of them checked; '
+                            'layer %d itself is not expanded' % (
+                                mach.name, dep, MAX_LAYER, dep - 1, dep))
+            transitions = rep.counts.get('transitions', 0)
+            layers.append(len(nxt))
+            completed = dep
+            frontier = []
+            last_layer = nxt[:20000]
+            break
         transitions = rep.counts.get('transitions', 0)
         frontier = nxt
         layers.append(len(nxt))
